@@ -529,8 +529,10 @@ C12(T) ==
                (IF fin.cond # e.arg.cond THEN B("eof-cancel-condition-not-reported", j) ELSE {})
                \cup (IF pdus # <<>> /\ ~(pdus[1].cond = e.arg.cond /\ pdus[1].floc.set /\ pdus[1].floc.v = IdBytesP(T.cfg.sIdW, T.cfg.sId))
                      THEN B("finished-pdu-after-eof-cancel-wrong-condition-or-fault-location", j) ELSE {})
-               \cup (IF had /\ T.cfg.disp /\ fin.deliv = "DATA_INCOMPLETE" /\ has THEN B("incomplete-file-not-deleted-although-disposition-configured", j) ELSE {})
-               \cup (IF had /\ ~(T.cfg.disp /\ fin.deliv = "DATA_INCOMPLETE") /\ ~has THEN B("file-deleted-although-not-configured-or-complete", j) ELSE {})
+               \* (incomplete: judged from the sandbox - the file is not the source file - not from the delivery code the handler reports)
+               \cup (IF had /\ T.cfg.disp /\ ~FileSame(FsBefore(T, j), path, T.cfg.file) /\ has
+                     THEN B("incomplete-file-not-deleted-although-disposition-configured", j) ELSE {})
+               \cup (IF had /\ ~T.cfg.disp /\ ~has THEN B("file-deleted-although-not-configured", j) ELSE {})
                : i \in { i \in OfSide(T, "D") : /\ T.ev[i].call = "fsm" /\ T.ev[i].arg.t = "EOF" /\ T.ev[i].arg.cond # "NO_ERROR"
                                                 /\ T.ev[i].exc = "none" /\ T.ev[i].pre.step \in {"RECEIVING_FILE_DATA", "RECV_FILE_DATA_WITH_CHECK_LIMIT_HANDLING"}
                                                 /\ ~\E c \in cancels : T.ev[c].side = "D" /\ T.ev[c].ret = "true" /\ T.ev[c].pre.tseq = T.ev[i].pre.tseq } }
